@@ -154,7 +154,7 @@ pub fn mutate(src: &str, m: Mutation, rng: &mut Rng) -> String {
     Mutation::InsertMultiByte => {
       let bs = char_boundaries(src);
       let at = bs[rng.below(bs.len())];
-      let ins = *rng.pick(&["é", "日本", "🦀", "ß", " /* ü */ "]);
+      let ins = *rng.pick(&["é", "日本", "🦀", "ß", " /* ü */ ", "\u{100000}", "\u{10FFFF}x", "\u{F0000}"]);
       format!("{}{}{}", &src[..at], ins, &src[at..])
     }
     Mutation::Crlf => src.replace('\n', "\r\n"),
